@@ -33,6 +33,17 @@ func c08min(a, b int) int {
 	return b
 }
 
+// c08SafeEncode is used by the generator only (building mostly-valid Decode inputs); a panicking
+// encoder must not take the generator down - the enc ops report it through safeExec.
+func c08SafeEncode(e enc.Encoder, x []byte) (out []byte) {
+	defer func() {
+		if recover() != nil {
+			out = nil
+		}
+	}()
+	return e.Encode(x)
+}
+
 func dnsSafeByte(b byte) bool {
 	return b > 32 && b != 127 && b != '.' && b != '\\'
 }
@@ -187,18 +198,13 @@ func (codecComp) Gen(r *Rand, tier string, emit func(op string)) {
 	const kinds = 7
 	for n := 0; n <= maxLen; n++ {
 		for ci, c := range codecLetters {
-			if n <= 600 {
+			if n <= 600 { // every content kind at every length
 				for k := 0; k < kinds; k++ {
-					if !thorough && n > 64 && k != (n+ci)%kinds && k != 5 {
-						continue // quick: beyond 64 every length gets one rotating structured kind + random
-					}
 					encOp(c, content(k, n))
 				}
 			} else {
 				encOp(c, content((n+ci)%kinds, n))
-				if n%8 == ci {
-					encOp(c, content(5, n))
-				}
+				encOp(c, content(5, n))
 			}
 		}
 	}
@@ -234,7 +240,7 @@ func (codecComp) Gen(r *Rand, tier string, emit func(op string)) {
 			}
 			for i := 0; i < 40; i++ {
 				x := r.Bytes(r.Intn(40))
-				good := e.Encode(x)
+				good := c08SafeEncode(e, x)
 				if len(good) == 0 {
 					continue
 				}
